@@ -170,8 +170,11 @@ class Dataset(object):
             base = dt.date(1995, 1, 1) + dt.timedelta(days=rng.randint(0, 12700))
             twin_calendar = nsym >= 2 and rng.random() < 0.3
             int_opens = rng.random() < 0.2
+            dotted = rng.random() < 0.3
             for s in range(nsym):
                 sym = 'S%d' % s
+                if dotted and s == nsym - 1:
+                    sym = 'S0.L' if nsym > 1 else 'BRK.B'      # exchange-suffixed / share-class tickers
                 start = base + dt.timedelta(days=rng.choice([0, 0, 3, 17, 90]))
                 rows = gen_rows(rng, used, start=start)
                 if twin_calendar and s > 0:
@@ -350,8 +353,10 @@ def run_multi_source(ds_a, ds_b, acc, rng):
                     if w is not None:
                         want = w
                         break
-            got = handler.get_asset_latest_bid_price(tstamp(t), asset)
+            which = rng.choice(['bid', 'ask', 'mid'])
+            got = getattr(handler, 'get_asset_latest_%s_price' % which)(tstamp(t), asset)
             acc.count('C06:multi_source_checks')
+            acc.count('C06:multi_source_checks_' + which)
             if want is None:
                 if not isnan(got):
                     raise Violation('C06', 'multi-source/no-bar-yet', 'handler over two sources returned %r for %s at %s '
